@@ -174,7 +174,7 @@ CHECKS["C05"] = NS(
         "selectors resolved at run time; partners (equal-scale companions, fresh quantized/plain operands) are constructed so "
         "shapes match; `contract` enumerates completely the 2-step programs source -> contraction (9 quantized source kinds x ranks 2, 3 x "
         "square/non-square x 7 contractions x 36 partner kinds x widths x call variants), and `pairs` the 2-step programs source -> binary "
-        "operation (12 source kinds x 16 operations x 36 companion modes x 6 argument variants). Non-trivial: >= 2 executed steps, >= 1 step whose result is still quantized, >= 1 step consuming the result "
+        "operation (12 source kinds x 16 operations x 36 companion modes x 8 argument variants). Non-trivial: >= 2 executed steps, >= 1 step whose result is still quantized, >= 1 step consuming the result "
         "of an earlier step. Distinct by the tuple of (op, operand kinds, result kind) per step."
     ),
     ASSUMPTIONS=[
